@@ -149,7 +149,8 @@ pub fn supervise(prop: &Property, tier: Tier) -> i32 {
             .arg(&crumbs)
             .arg(&hb)
             .env("VERIF_SEED", (seed as i64).to_string())
-            .stdin(Stdio::null());
+            .stdin(Stdio::null())
+            .stderr(Stdio::null());
         if profile == "release" && tier == Tier::Quick {
             cmd.arg("--only-both");
         }
